@@ -449,10 +449,18 @@ func (sp *spec) renderedUsed() []*fnSpec {
 
 func (sp *spec) events() []string {
 	var ev []string
+	rendered := map[*fnSpec]bool{}
 	var bodyEvents func(f *fnSpec)
 	bodyEvents = func(f *fnSpec) {
 		for _, it := range f.body {
 			switch it.kind {
+			case iRender:
+				// a rendered file is emitted where it is first rendered
+				if !rendered[it.fn] {
+					rendered[it.fn] = true
+					ev = append(ev, fmt.Sprintf("d %d", it.fn.id))
+					bodyEvents(it.fn)
+				}
 			case iShow, iSet:
 				if sp.isDeclared(it.v) {
 					ev = append(ev, fmt.Sprintf("u %d %s", f.id, it.v))
@@ -490,10 +498,6 @@ func (sp *spec) events() []string {
 	}
 	for _, im := range sp.imports {
 		fileEvents(im)
-	}
-	for _, f := range sp.renderedUsed() {
-		ev = append(ev, fmt.Sprintf("d %d", f.id))
-		bodyEvents(f)
 	}
 	bodyEvents(sp.main)
 	return ev
@@ -958,6 +962,16 @@ func modelAnswer(ans string) (used []string, out []int, ptr map[string]int, ok b
 // correspond compares one observation with the model's answer.
 func correspond(sp *spec, init map[string]initVal, obs *observation, ans string) (name, impl string) {
 	if il := implLine(sp, init, obs, ans); il != "" {
+		bad := 0
+		for v, iv := range init {
+			if sp.isDeclared(v) && iv.kind != "v" && iv.kind != "p" && iv.kind != "" {
+				bad++
+			}
+		}
+		if bad > 1 && strings.HasPrefix(il, "err init ") && strings.HasPrefix(ans, "err init ") {
+			// several invalid initializers: which panic comes first is the order of the globals
+			return "", ""
+		}
 		if il != ans {
 			return "run-outcome", il
 		}
